@@ -31,6 +31,11 @@ def subst(t, env):
         return env[t[1]]
     if t[0] == 'op':
         return ('op', t[1], tuple(subst(x, env) for x in t[2]))
+    if t[0] == 'negative':          # Sentence.negative(): strip one negation if present, else negate
+        v = subst(t[1], env)
+        if v[0] == 'op' and v[1] == 'Negation':
+            return v[2][0]
+        return ('op', 'Negation', (v,))
     raise AnalysisError(f'term {t!r} in a propositional expansion')
 
 
